@@ -16,7 +16,7 @@ import numpy as np
 from .engine import Ctx, Skip, CaseTimeout
 
 CTX = {}
-SEEN = {"C04": set(), "C08": set(), "C11": set()}
+SEEN = {"C04": set(), "C08": set(), "C11": set(), "C10": set(), "C12": set()}
 ACTIVE = {"busy": False}
 MAXCELLS = 1500
 
@@ -145,6 +145,98 @@ def install(which):
             return _init_facets
         M.Mesh._init_facets = make(orig_if)
         skfem.MeshHex1._init_facets = make(hex_if)
+
+
+def install_more(which):
+    """C10: F(invF(x)) = x for every inverse map the suite computes; C12: every clause of the refinement oracle for every
+    uniform Mesh.refined(k) call the suite makes."""
+    import skfem
+    from skfem.mesh import mesh as M
+    from .gen import meshes as G
+
+    if "C10" in which:
+        from skfem.mapping.mapping_affine import MappingAffine
+        from skfem.mapping.mapping_isoparametric import MappingIsoparametric
+
+        def wrap(cls, clipped):
+            orig = cls.invF
+
+            def invF(self, x, tind=None, **kw):
+                X = orig(self, x, tind, **kw)
+
+                def oracle(ctx):
+                    xa, Xa = np.asarray(x, dtype=float), np.asarray(X, dtype=float)
+                    if xa.ndim != 3 or Xa.shape != xa.shape or xa.size == 0 or xa.size > 200000:
+                        raise Skip("layout-outside-oracle")
+                    back = np.asarray(self.F(Xa, tind), dtype=float)
+                    if back.shape != xa.shape:
+                        raise Skip("F-layout")
+                    inside = np.ones(xa.shape[1:], dtype=bool)
+                    if clipped:
+                        # the isoparametric inverse clips to the unit box: only points it left strictly inside are
+                        # claimed to be inverse images
+                        inside = ((Xa > 1e-9) & (Xa < 1 - 1e-9)).all(axis=0)
+                    if not inside.any():
+                        raise Skip("no-interior-points")
+                    mp = np.asarray(self.mesh.p, dtype=float)
+                    span = float(np.ptp(mp, axis=1).max()) + 1e-300          # extent of the mesh
+                    sc = float(np.abs(mp).max()) * 1e-6 + span
+                    err = float(np.abs(back - xa)[:, inside].max())
+                    ctx.check("F-invF-identity", err <= 1e-7 * sc, mech=f"suite:F-invF:{cls.__name__}", err=err, scale=sc,
+                              test=_test(), mesh=type(getattr(self, "mesh", None)).__name__)
+                    key = (cls.__name__, _test())
+                    if key not in SEEN["C10"]:
+                        SEEN["C10"].add(key)
+                        ctx.nontrivial("suite", cls.__name__, _test())
+                        ctx.sample({"from": "repository-suite", "test": _test(), "mapping": cls.__name__,
+                                    "points": int(inside.sum())})
+                _guard("C10", oracle)
+                return X
+            cls.invF = invF
+        wrap(MappingAffine, False)
+        wrap(MappingIsoparametric, True)
+
+    if "C12" in which:
+        from .monitors import c12
+        orig_refined = M.Mesh.refined
+
+        def refined(self, times_or_ix=1):
+            if not isinstance(times_or_ix, (int, np.integer)) or isinstance(times_or_ix, bool) or ACTIVE["busy"]:
+                return orig_refined(self, times_or_ix)
+            with c12.captured_warnings() as recs:
+                child = orig_refined(self, times_or_ix)
+            records = list(recs)
+
+            def oracle(ctx):
+                try:
+                    kind = G.kind_of(self)
+                except ValueError:
+                    raise Skip("mesh-kind")
+                k = int(times_or_ix)
+                if "DG" in type(self).__name__ or kind == "wedge" or k < 1 or k > 3 or child.t.shape[1] > MAXCELLS:
+                    raise Skip("mesh-outside-oracle")
+                used = np.unique(np.asarray(self.t)[:G.NVERT[kind]])
+                if used.size != int(used[-1]) + 1:
+                    raise Skip("mesh-with-unused-vertices")
+                if G.order_of(self) == 2:
+                    # the statement is about straight-sided meshes; curved second-order meshes are outside it
+                    m1 = G.mesh_class(kind, 2).from_mesh(G.mesh_class(kind, 1)(np.asarray(self.p)[:, :used.size],
+                                                                               np.asarray(self.t)[:G.NVERT[kind]]))
+                    if not np.allclose(np.asarray(m1.doflocs), np.asarray(self.doflocs), atol=1e-12):
+                        raise Skip("curved-second-order-mesh")
+                key = (type(self).__name__, k, hashlib.blake2b(np.ascontiguousarray(self.t).tobytes() +
+                                                                 np.ascontiguousarray(self.doflocs).tobytes(), digest_size=8).hexdigest(),
+                       repr(sorted((self.boundaries or {}).keys())), repr(sorted((self.subdomains or {}).keys())))
+                if key in SEEN["C12"]:
+                    return
+                SEEN["C12"].add(key)
+                c12.judge(ctx, self, child, k, records, kind, {"from": "repository-suite", "test": _test()}, history="suite")
+                ctx.nontrivial("suite", type(self).__name__, k, _test())
+                ctx.sample({"from": "repository-suite", "test": _test(), "mesh": type(self).__name__, "k": k,
+                            "cells": [int(self.t.shape[1]), int(child.t.shape[1])]})
+            _guard("C12", oracle)
+            return child
+        M.Mesh.refined = refined
 
 
 def dump():
